@@ -4,7 +4,7 @@ from props.base import PropBase
 import pktgen, scen, compare as CMP
 from pktgen import udp_frame
 
-KINDS = {'lcreate', 'linit', 'lstart', 'lstop', 'lstate', 'lproc', 'leof', 'ldestroy', 'late', 'crash', 'nodrv'}
+KINDS = {'lcreate', 'linit', 'lstart', 'lstop', 'lopen', 'lstate', 'lproc', 'leof', 'ldestroy', 'late', 'crash', 'nodrv'}
 
 
 class Prop(PropBase):
@@ -15,7 +15,7 @@ class Prop(PropBase):
     harness_variants = ['asan', 'tsan']
     rule = ('random call histories (6..16 calls) over {create, init, start, stop, decodePacket, wait-idle, wait-end-of-file, destroy, re-create} on real LidarDriver objects with real threads: RAW_PACKET, '
             'PCAP_FILE (repeat and no-repeat; stop/start after end-of-file; missing file) and ONLINE_LIDAR (bind success and failure) inputs; always included: start before init, init twice, start twice, stop without start, '
-            'decodePacket before init / while stopped, destroy while running; after every call the return value, init/start flags, existence (joinability) of both worker threads, processed-packet count and the number of '
+            'decodePacket before init / while stopped, destroy while running; after every call the return value, init/start flags, existence (joinability) of both worker threads, processed-packet count, the size of the open frame after stop() and the number of '
             'close() calls on descriptors the process never opened are compared with the model; any callback after stop() returned is reported; cloud and packet sequence numbers must continue across restarts; '
             'the same histories under ThreadSanitizer; thorough tier adds every call sequence of length 4 over six calls (RAW_PACKET, 1296 histories) and of length 3 over seven calls (PCAP_FILE, 343 histories); non-trivial = history with a restart or a failed init or a destroy while running')
     explanation = ('C11_T1..T4 (Coq: for every call history threads exist iff started, started implies initialised; stop/destroy are barriers; init/start idempotent; start before init and failed init are inert; '
